@@ -172,6 +172,7 @@ HeadOf(c) == IF c = <<>> THEN <<>> ELSE <<c[1]>>
 
 \* the automaton a table encodes, independent of the slot layout: BFS order by label is canonical
 NormTable(ev) ==
+  <<[k \in 1..Len(ev.extra) |-> <<ev.extra[k].from, ev.extra[k].lab>>]>> \o
   [i \in 1..Len(ev.slots) |->
      <<ev.slots[i].par, ev.slots[i].lab, ev.slots[i].failidx,
        IF \A k \in 1..Len(ev.outs) : ev.outs[k].parent >= 0 /\ ev.outs[k].parent < k
@@ -369,6 +370,7 @@ Fails(s, ev, r) ==
          THEN Chk("mismatch.terminates", {"C13"}, ~ev.hoplimit /\ ~ev.capped) ELSE {"unknown_handle"}
     [] ev.ev = "decode" -> DecodeFails(ev)
     [] ev.ev = "iter_new" -> IF HasAuto(s, ev.h) THEN {} ELSE {"unknown_handle"}
+    [] ev.ev = "clone" -> IF HasAuto(s, ev.h) THEN {} ELSE {"unknown_handle"}
     [] ev.ev = "next" ->
          IF HasIter(s, ev.it)
          THEN NextFails(s, s.autos[s.iters[ev.it].h], s.iters[ev.it], ev) ELSE {"unknown_iter"}
@@ -392,6 +394,7 @@ Eff(s, ev, r) ==
             THEN [s1 EXCEPT !.seen = (AbsKey(a) :> TableAbsOK(a, ev)) @@ @] ELSE s1
     [] ev.ev = "roundtrip" ->
          [s EXCEPT !.autos = (ev.h2 :> [s.autos[ev.h] EXCEPT !.restored = TRUE]) @@ @]
+    [] ev.ev = "clone" -> [s EXCEPT !.autos = (ev.h2 :> s.autos[ev.h]) @@ @]
     [] ev.ev = "iter_new" ->
          [s EXCEPT !.iters = (ev.it :> IterOf(s.autos[ev.h], ev)) @@ @]
     [] ev.ev = "next" ->
